@@ -16,7 +16,8 @@ SIZES = {'quick': 2400, 'thorough': 80000}
 
 def make_request(r, mp, framing):
     body = mp['body']
-    head = 'POST /c14 HTTP/1.1\r\nHost: h\r\nContent-Type: %s\r\n' % mp['ctype']
+    # multipart bodies also travel with PUT and PATCH (with PUT the parser additionally treats the whole body as an uploaded file)
+    head = '%s /c14 HTTP/1.1\r\nHost: h\r\nContent-Type: %s\r\n' % (r.pick(['POST', 'POST', 'POST', 'PUT', 'PATCH']), mp['ctype'])
     if framing == 'cl':
         return (head + 'Content-Length: %d\r\n\r\n' % len(body)).encode('latin-1'), body
     out = b''
